@@ -1,6 +1,7 @@
 SPECIFICATION TraceSpec
 CONSTANTS
   ConfirmAfterFailedExec = TRUE
+  FeeWithoutSequence = TRUE
 CONSTRAINT Mark
 POSTCONDITION Accepted
 INVARIANTS IdsUnique RegWellFormed AuthenticatePure StoresConsistent NoCallsWhileInactive TrackOnlyAfterAuth TxIdsFresh
